@@ -138,7 +138,7 @@ Lemma emit_dqt_inv st d index m st' p :
   inv st' (fold_left dview_step m d) /\ sent_true st' (qslot index) /\ 0 <= qslot index < 12 /\
   (forall s, sent_true st s -> sent_true st' s).
 Proof.
-  unfold emit_dqt. intros H Hi. destruct (tblno_ok index) eqn:Eok; [|discriminate]. cbn [negb] in H.
+  unfold emit_dqt. intros H Hi. change (g_DQT_INDEX_CHECK =? 1) with true in H. destruct (tblno_ok index) eqn:Eok; [|discriminate]. cbn [negb andb] in H.
   apply tblno_ok_range in Eok. unfold qslot in *.
   destruct (get_tbl st index) as [q|] eqn:Eg; [|discriminate].
   destruct (t_sent q) eqn:Es.
@@ -390,3 +390,12 @@ Proof.
   destruct (stream_complete_partial_lemma (Z.of_nat (length scans)) optimize dcr Hn) as [ev [E [_ [L [D Hh]]]]].
   exists ev. rewrite Nat2Z.id in D. auto.
 Qed.
+
+(* the generated facts about the source that the model and the proofs above rely on *)
+Lemma source_facts :
+  g_NCOMP_CHECK_IN_VALIDATE = 1 /\ g_REVALIDATE_AFTER_LOSSLESS = 1 /\ g_ZERO_QUANT_REJECTED = 1 /\
+  g_DIVISOR_CLAMPED_EVERYWHERE = 1 /\ g_MISSING_CODE_CHECK = 1 /\ g_MISSING_ZRL_EOB_CHECK = 1 /\
+  g_SIMD_RANGE_PRECHECK = 1 /\ g_RESTART_CLAMP_DIRECT = 1 /\ g_SP_SIZE_RULE = 1 /\ g_SP_ALLOC_GUARD = 1 /\
+  g_DRI_RULE = 1 /\ g_RAW_ADVANCE = 1 /\ g_DQT_INDEX_CHECK = 1 /\ g_HUFF_TBLNO_CHECK_FIRST = 1 /\
+  g_M_SOI = 216 /\ g_M_EOI = 217 /\ g_BUFSIZE = 512 /\ g_BIT_BUF_SIZE = 64.
+Proof. repeat split; reflexivity. Qed.
